@@ -218,6 +218,10 @@ class CQN(RLAlgorithm):
         :return: Loss from learning
         :rtype: float
         """
+        if hasattr(experiences, "keys"):  # TensorDict handed out by ReplayBuffer / Sampler
+            experiences = tuple(
+                experiences[k] for k in ("obs", "action", "reward", "next_obs", "done")
+            )
         states, actions, rewards, next_states, dones = experiences
         if self.accelerator is not None:
             actions = actions.to(self.accelerator.device)
